@@ -69,12 +69,10 @@ macro_rules! log_context {
     }};
 }
 
-#[derive(Clone, Copy)]
-pub enum HeaderLen {
-    V4,
-    V6,
-    Unix,
-}
+/// Size of the fixed part of a PROXY-v2 header: 12-byte signature,
+/// version/command, family/transport, and the big-endian length of the
+/// variable part that follows.
+const FIXED_PREFIX_LEN: usize = 16;
 
 // TODO: should have a backend
 pub struct ExpectProxyProtocol<Front: SocketHandler> {
@@ -84,7 +82,6 @@ pub struct ExpectProxyProtocol<Front: SocketHandler> {
     pub frontend_readiness: Readiness,
     pub frontend_token: Token,
     pub frontend: Front,
-    header_len: HeaderLen,
     index: usize,
     pub request_id: Ulid,
 }
@@ -109,18 +106,38 @@ impl<Front: SocketHandler> ExpectProxyProtocol<Front> {
             },
             frontend_token,
             frontend,
-            header_len: HeaderLen::V4,
             index: 0,
             request_id,
         }
     }
 
+    /// Total length of the header as announced by its fixed prefix, once that
+    /// prefix has been read.
+    fn announced_len(&self) -> Option<usize> {
+        if self.index < FIXED_PREFIX_LEN {
+            return None;
+        }
+        let declared = u16::from_be_bytes([self.frontend_buffer[14], self.frontend_buffer[15]]);
+        Some(FIXED_PREFIX_LEN + declared as usize)
+    }
+
+    fn close_on_bad_length(&mut self, reason: &str) -> SessionResult {
+        error!("{} proxy protocol header {}, closing", log_context!(self), reason);
+        incr!(names::proxy_protocol::ERRORS);
+        self.frontend_readiness.reset();
+        SessionResult::Close
+    }
+
     pub fn readable(&mut self, metrics: &mut SessionMetrics) -> SessionResult {
-        let total_len = match self.header_len {
-            HeaderLen::V4 => 28,
-            HeaderLen::V6 => 52,
-            HeaderLen::Unix => 232,
-        };
+        // A v2 header is self-describing: its 16-byte fixed prefix ends with
+        // the length of the variable part. Read the prefix first, then exactly
+        // the announced length, so that no byte following the header (it
+        // belongs to the proxied protocol and must reach the next state) is
+        // ever pulled into the staging buffer.
+        let total_len = self.announced_len().unwrap_or(FIXED_PREFIX_LEN);
+        if total_len > self.frontend_buffer.len() {
+            return self.close_on_bad_length("exceeds maximum size (232 bytes)");
+        }
 
         // Anti-oversized-header / partial-read invariant: the accumulation
         // cursor never runs past the staging window, and the per-stage target
@@ -234,32 +251,17 @@ impl<Front: SocketHandler> ExpectProxyProtocol<Front> {
                 self.addresses = Some(header.addr);
                 SessionResult::Upgrade
             }
-            Err(Err::Incomplete(_)) => {
-                match self.header_len {
-                    HeaderLen::V4 => {
-                        if self.index == 28 {
-                            self.header_len = HeaderLen::V6;
-                        }
-                    }
-                    HeaderLen::V6 => {
-                        if self.index == 52 {
-                            self.header_len = HeaderLen::Unix;
-                        }
-                    }
-                    HeaderLen::Unix => {
-                        if self.index == 232 {
-                            error!(
-                                "{} proxy protocol header exceeds maximum size (232 bytes), closing",
-                                log_context!(self)
-                            );
-                            incr!(names::proxy_protocol::ERRORS);
-                            self.frontend_readiness.reset();
-                            return SessionResult::Close;
-                        }
-                    }
-                };
-                SessionResult::Continue
-            }
+            Err(Err::Incomplete(_)) => match self.announced_len() {
+                Some(announced) if announced > self.frontend_buffer.len() => {
+                    self.close_on_bad_length("exceeds maximum size (232 bytes)")
+                }
+                // every announced byte is in hand and the address block is
+                // still incomplete: the length is too short for the family
+                Some(announced) if announced == self.index => {
+                    self.close_on_bad_length("is shorter than its address block")
+                }
+                _ => SessionResult::Continue,
+            },
             Err(Err::Error(e)) | Err(Err::Failure(e)) => {
                 error!(
                     "{} parse error, closing the connection:\n{}",
